@@ -57,6 +57,14 @@ MINV = -(1 << (W - 1))
 MAXV = (1 << (W - 1)) - 1
 
 
+def set_width(w):
+    """bit-width of symbolic ints for this process (call before any symbolic value exists)"""
+    global W, MINV, MAXV
+    W = w
+    MINV = -(1 << (W - 1))
+    MAXV = (1 << (W - 1)) - 1
+
+
 def _fits(lo, hi):
     return lo >= MINV and hi <= MAXV
 
@@ -210,10 +218,10 @@ class SymInt:
 
     __slots__ = ("t", "lo", "hi")
 
-    def __init__(self, t, lo=MINV, hi=MAXV):
+    def __init__(self, t, lo=None, hi=None):
         self.t = t
-        self.lo = lo
-        self.hi = hi
+        self.lo = MINV if lo is None else lo
+        self.hi = MAXV if hi is None else hi
 
     # ---- plumbing
     def __repr__(self):
@@ -304,6 +312,17 @@ class SymInt:
         if lb <= 0 <= hb:
             if cur().branch(tb == 0):
                 raise ZeroDivisionError("integer division or modulo by zero")
+        if isinstance(b, int) and b > 1 and not isinstance(a, int):
+            # division by a constant as a definitional extension (bit-blasted dividers stall the solver):
+            # fresh q, r with a == q*b + r, 0 <= r < b and q inside the interval implied by a, which makes
+            # the pair unique and the product overflow-free.
+            eng = cur()
+            eng._fresh = getattr(eng, "_fresh", 0) + 1
+            q = z3.BitVec(f"_q{eng._fresh}", W)
+            r = z3.BitVec(f"_r{eng._fresh}", W)
+            qlo, qhi = la // b, ha // b
+            eng.solver.add(q >= qlo, q <= qhi, r >= 0, r < b, ta == q * tb + r)
+            return q, r, (qlo, qhi), (0, min(max(abs(la), abs(ha)), b - 1))
         if la >= 0 and lb > 0:
             q = z3.UDiv(ta, tb)
             r = z3.URem(ta, tb)
@@ -348,9 +367,12 @@ class SymInt:
         return (o // self, o % self)
 
     def __truediv__(self, o):
-        raise Unsupported("true division on a symbolic int (float)")
+        if isinstance(o, int) and not isinstance(o, bool) and o > 0:
+            return SymQuot(self, o)
+        raise Unsupported("true division of a symbolic int by a non-constant (float)")
 
-    __rtruediv__ = __truediv__
+    def __rtruediv__(self, o):
+        raise Unsupported("true division by a symbolic int (float)")
 
     def __pow__(self, o, mod=None):
         if isinstance(o, int) and 0 <= o <= 4 and mod is None:
@@ -471,23 +493,56 @@ class SymInt:
     def __eq__(self, o):
         if not _num(o):
             return False if o is None or isinstance(o, (bytes, str, tuple, list)) else NotImplemented
+        lo, hi = ival(o)
+        if self.hi < lo or self.lo > hi:
+            return False
         return mk_bool(self.t == bv(o))
 
     def __ne__(self, o):
         if not _num(o):
             return True if o is None or isinstance(o, (bytes, str, tuple, list)) else NotImplemented
+        lo, hi = ival(o)
+        if self.hi < lo or self.lo > hi:
+            return True
         return mk_bool(self.t != bv(o))
 
+    def _iv(self, o):
+        return ival(o) if _num(o) else (None, None)
+
     def __lt__(self, o):
+        lo, hi = self._iv(o)
+        if lo is not None:
+            if self.hi < lo:
+                return True
+            if self.lo >= hi:
+                return False
         return self._cmp(o, lambda a, b: a < b)
 
     def __le__(self, o):
+        lo, hi = self._iv(o)
+        if lo is not None:
+            if self.hi <= lo:
+                return True
+            if self.lo > hi:
+                return False
         return self._cmp(o, lambda a, b: a <= b)
 
     def __gt__(self, o):
+        lo, hi = self._iv(o)
+        if lo is not None:
+            if self.lo > hi:
+                return True
+            if self.hi <= lo:
+                return False
         return self._cmp(o, lambda a, b: a > b)
 
     def __ge__(self, o):
+        lo, hi = self._iv(o)
+        if lo is not None:
+            if self.lo >= hi:
+                return True
+            if self.hi < lo:
+                return False
         return self._cmp(o, lambda a, b: a >= b)
 
     # ---- int methods used by the code base
@@ -522,12 +577,77 @@ class SymInt:
         return SymBytes(out)
 
 
+class SymQuot:
+    """The float `a / b` for symbolic int a and constant int b > 0, kept as an exact rational.
+    Sound for what the code base does with such floats (int(), %d formatting, % k) provided
+    |a| < 2^53, which is registered as an obligation: for |a| < 2^53 the correctly rounded double
+    a/b never reaches the next integer (the distance of a/b to it is >= 1/b > |a/b| * 2^-53), so
+    truncation of the double equals truncation of the exact quotient."""
+
+    def __init__(self, num, den):
+        self.num = num
+        self.den = den
+        if isinstance(num, SymInt) and W > 54:
+            cur().obligation(z3.And(num.t > -(1 << 53), num.t < (1 << 53)))
+
+    def trunc(self):
+        n = self.num
+        return Ite(n < 0, -((-n) // self.den), n // self.den)
+
+    __int__ = trunc
+    __trunc__ = trunc
+
+    def __mod__(self, k):
+        if isinstance(k, int) and k > 0:
+            return SymQuot(self.num % (self.den * k), self.den)
+        raise Unsupported("float modulo")
+
+    def __truediv__(self, k):
+        if isinstance(k, int) and k > 0:
+            return SymQuot(self.num, self.den * k)
+        raise Unsupported("float division")
+
+    def __repr__(self):
+        return MARK
+
+    def __format__(self, spec):
+        return MARK
+
+    def __bool__(self):
+        return bool(self.num != 0)
+
+    def _cmp(self, o, f):
+        if isinstance(o, (int, SymInt)):
+            return f(self.num, o * self.den)
+        raise Unsupported("float comparison")
+
+    def __lt__(self, o):
+        return self._cmp(o, lambda a, b: a < b)
+
+    def __le__(self, o):
+        return self._cmp(o, lambda a, b: a <= b)
+
+    def __gt__(self, o):
+        return self._cmp(o, lambda a, b: a > b)
+
+    def __ge__(self, o):
+        return self._cmp(o, lambda a, b: a >= b)
+
+    def __eq__(self, o):
+        return self._cmp(o, lambda a, b: a == b)
+
+    __hash__ = None
+
+
 class Engine:
     """Decision-prefix-replay path explorer over one incremental z3 solver."""
 
     def __init__(self, max_decisions=400, solver_timeout_ms=60000, conc_cap=300):
         self.solver = z3.Solver()
-        self.solver.set("timeout", solver_timeout_ms)
+        self.fast_ms = 3000
+        self.slow_ms = solver_timeout_ms
+        self.retries = 0
+        self._model_src = self.solver
         self.max_decisions = max_decisions
         self.conc_cap = conc_cap
         self.n_checks = 0
@@ -543,13 +663,30 @@ class Engine:
 
     # -- solver
     def check(self, *assumps):
+        """incremental solver first (fast, weak preprocessing); on `unknown` the same query is re-decided by
+        a fresh non-incremental solver, whose full QF_BV pipeline (solve-eqs before bit-blasting) settles the
+        definitional equalities the models introduce"""
         t0 = time.time()
+        self.solver.set("timeout", self.fast_ms)
         r = self.solver.check(*assumps)
+        self._model_src = self.solver
+        if r == z3.unknown:
+            self.retries += 1
+            self.fast_ms = 300      # this exploration has hard queries: stop waiting long for the weak solver
+            s2 = z3.Solver()
+            s2.set("timeout", self.slow_ms)
+            s2.add(self.solver.assertions())
+            s2.add(*assumps)
+            r = s2.check()
+            self._model_src = s2
         self.t_solver += time.time() - t0
         self.n_checks += 1
         if r == z3.unknown:
             self.unknowns += 1
         return r
+
+    def model(self):
+        return self._model_src.model()
 
     def add(self, c):
         self.solver.add(c)
@@ -608,7 +745,7 @@ class Engine:
                 r = self.check()
                 if r != z3.sat:
                     raise Unsupported("concretize: path condition not sat")
-                m = self.solver.model().eval(v.t, model_completion=True).as_signed_long()
+                m = self.model().eval(v.t, model_completion=True).as_signed_long()
             if self.branch(v.t == m, payload=m):
                 return m
             n += 1
